@@ -422,6 +422,9 @@ fn arrow(rng: &mut Rng, ctx: &mut Ctx) {
     }
 }
 
+/// a NUL-terminated string in a fixed buffer of `w` bytes holds at most `w - 1` characters: the value is what precedes the first NUL,
+/// and the last byte of an unterminated buffer is not part of it
+pub fn cstr(b: &[u8]) -> &[u8] { &b[..b.iter().position(|&x| x == 0).unwrap_or(b.len() - 1)] }
 pub fn until_nul(b: &[u8]) -> &[u8] { &b[..b.iter().position(|&x| x == 0).unwrap_or(b.len())] }
 pub fn sjis(b: &[u8]) -> Option<String> { encoding_rs::SHIFT_JIS.decode_without_bom_handling_and_without_replacement(b).map(|c| c.to_string()) }
 
@@ -478,13 +481,13 @@ pub fn check_start_fields(s: &peppi::game::Start, b: &[u8], c: &mut Vec<(String,
         match (&pl.ucf, b.len() >= 352) { (Some(u), true) => { let (d, sd) = (be32(320 + 8 * p), be32(324 + 8 * p)); if u.dash_back.map_or(0, |x| x as u32) != d || u.shield_drop.map_or(0, |x| x as u32) != sd { bad(format!("port {} ucf", p)); } } (None, false) => {}, _ => bad(format!("port {} ucf presence vs block length {}", p, b.len())) }
         if pl.name_tag.is_some() != (b.len() >= 416) { bad(format!("port {} name_tag presence vs block length {}", p, b.len())); }
         if pl.netplay.is_some() != (b.len() >= 584) { bad(format!("port {} netplay presence vs block length {}", p, b.len())); }
-        if let Some(n) = &pl.netplay { match (&n.suid, b.len() >= 700) { (Some(u), true) => if u.as_bytes() != until_nul(&b[584 + 29 * p..584 + 29 * p + 29]) { bad(format!("port {} suid", p)); }, (None, false) => {}, _ => bad(format!("port {} suid presence", p)) } }
+        if let Some(n) = &pl.netplay { match (&n.suid, b.len() >= 700) { (Some(u), true) => if u.as_bytes() != cstr(&b[584 + 29 * p..584 + 29 * p + 29]) { bad(format!("port {} suid", p)); }, (None, false) => {}, _ => bad(format!("port {} suid presence", p)) } }
     }
     match (s.is_pal, b.len() >= 417) { (Some(x), true) => if x != (b[416] != 0) { bad("is_pal".into()); }, (None, false) => {}, _ => bad("is_pal presence".into()) }
     match (s.is_frozen_ps, b.len() >= 418) { (Some(x), true) => if x != (b[417] != 0) { bad("is_frozen_ps".into()); }, (None, false) => {}, _ => bad("is_frozen_ps presence".into()) }
     match (&s.scene, b.len() >= 420) { (Some(x), true) => if (x.minor, x.major) != (b[418], b[419]) { bad("scene".into()); }, (None, false) => {}, _ => bad("scene presence".into()) }
     match (&s.language, b.len() >= 701) { (Some(x), true) => if *x as u8 != b[700] { bad("language".into()); }, (None, false) => {}, _ => bad("language presence".into()) }
-    match (&s.r#match, b.len() >= 760) { (Some(m), true) => if m.id.as_bytes() != until_nul(&b[701..752]) || m.game != be32(752) || m.tiebreaker != be32(756) { bad("match info".into()); }, (None, false) => {}, _ => bad("match presence".into()) }
+    match (&s.r#match, b.len() >= 760) { (Some(m), true) => if m.id.as_bytes() != cstr(&b[701..752]) || m.game != be32(752) || m.tiebreaker != be32(756) { bad("match info".into()); }, (None, false) => {}, _ => bad("match presence".into()) }
 }
 
 fn start(rng: &mut Rng, ctx: &mut Ctx) {
@@ -507,9 +510,18 @@ fn start(rng: &mut Rng, ctx: &mut Ctx) {
         };
         if b.len() >= 416 { for p in 0..4 { fill(&mut b, 352 + 16 * p, 16, p, rng); } }
         if b.len() >= 584 { for p in 0..4 { fill(&mut b, 420 + 31 * p, 31, 4 + p, rng); fill(&mut b, 544 + 10 * p, 10, 8 + p, rng); } }
-        if b.len() >= 700 { for p in 0..4 { for j in 0..(rng.next() % 29) as usize { b[584 + 29 * p + j] = 0x61 + (rng.next() % 26) as u8; } } }
+        // UTF-8 fields (Slippi UID, match id): one- to four-byte characters, lengths at the field boundary (w-2, w-1, w: no terminator),
+        // a multi-byte character ending exactly at / straddling the end of the field, occasionally an invalid byte
+        let mut fill8 = |b: &mut Vec<u8>, off: usize, w: usize, rng: &mut Rng| {
+            let toks: [&[u8]; 5] = [b"a", b"7", "é".as_bytes(), "€".as_bytes(), "😀".as_bytes()];
+            let target = match rng.next() % 8 { 0 => w, 1 => w - 1, 2 => w - 2, 3 => 0, _ => (rng.next() as usize) % (w + 1) };
+            let mut j = 0; while j < target { let t = if target - j <= 4 && rng.next() % 2 == 0 { toks[(target - j).min(4)] } else { toks[(rng.next() % 5) as usize] }; if j + t.len() > w { break; } b[off + j..off + j + t.len()].copy_from_slice(t); j += t.len(); }
+            if rng.next() % 16 == 0 && j > 0 { b[off + (rng.next() as usize) % j] = [0xffu8, 0x80, 0xc3][(rng.next() % 3) as usize]; }
+            if j < w { b[off + j] = 0; for x in j + 1..w { b[off + x] = (rng.next() >> 8) as u8; } }
+        };
+        if b.len() >= 700 { for p in 0..4 { fill8(&mut b, 584 + 29 * p, 29, rng); } }
         if b.len() >= 701 { b[700] = (rng.next() % 3) as u8 % 2; }
-        if b.len() >= 760 { for j in 0..(rng.next() % 51) as usize { b[701 + j] = 0x30 + (rng.next() % 10) as u8; } }
+        if b.len() >= 760 { fill8(&mut b, 701, 51, rng); }
         if k % 7 == 6 { let cut = (rng.next() as usize) % b.len(); b.truncate(cut.max(1)); }
         if k % 11 == 10 { b.extend(rng.nbytes(40)); } // longer than any known layout (newer version)
         let r = Replay { v, start_block: b.clone(), gecko: None, frames: vec![], end: None, double_end: false, metadata: None, extra_payloads: vec![] };
@@ -533,6 +545,8 @@ fn start(rng: &mut Rng, ctx: &mut Ctx) {
         let mut e: Vec<u8> = vec![[0u8, 1, 2, 3, 7, 0, 1, 2, 3, 7, 2, 4, 255][(rng.next() % 13) as usize]];
         if len >= 2 { e.push([255u8, 0, 1, 2, 3, 255, 0, 1, 2, 3, 4, 128][(rng.next() % 12) as usize]); }
         for _ in 2..len { e.push([255u8, 0, 1, 2, 3, 255, 0, 1, 2, 3, 255, 0, 1, 2, 3, 4, 250][(rng.next() % 17) as usize]); }
+        // every pattern of "no placement" sentinels over the four ports (all absent and all present included), walked
+        if len >= 6 && k < 64 { let mask = (k / 2) % 16; for i in 0..4 { e[2 + i] = if mask >> i & 1 == 1 { 255 } else { (i as u8 + k as u8) % 4 }; } if k % 2 == 1 { e[1] = 255; } }
         let v: V = if len >= 6 { (3, 16, 0) } else if len >= 2 { (3, 0, 0) } else { (1, 0, 0) };
         let mut r = simple(v, &[(0, 0, 2)], 0, &[], rng); r.end = Some(e.clone()); r.metadata = None;
         let file = encode(&r);
